@@ -308,6 +308,26 @@ func scanPkg(dir string) *pkgInfo {
 					fc.recv = strings.TrimPrefix(exprStr(x.Recv.List[0].Type), "*")
 				}
 			}
+			// round 5: function literals in the initialiser of a package-level variable (tempo.opRegistry: the closures that print
+			// match(val, %s)) were in no function context and their Sprintf sites in no census: the initialiser is scanned as the
+			// body of a function without parameters
+			if g, ok := d.(*ast.GenDecl); ok && g.Tok == token.VAR {
+				for _, sp := range g.Specs {
+					vs, ok := sp.(*ast.ValueSpec)
+					if !ok || len(vs.Values) == 0 {
+						continue
+					}
+					body := &ast.BlockStmt{}
+					for _, v := range vs.Values {
+						body.List = append(body.List, &ast.ExprStmt{X: v})
+					}
+					nm := "var"
+					if len(vs.Names) > 0 {
+						nm = "var " + vs.Names[0].Name
+					}
+					p.addFunc(fn, nm, &ast.FuncType{Params: &ast.FieldList{}}, body, vs, nil)
+				}
+			}
 		}
 	}
 	return p
@@ -911,7 +931,8 @@ func (c *fnCtx) addSprintfSite(x *ast.CallExpr) {
 			}
 		case 's', 'v':
 			st.Pieces = append(st.Pieces, c.argPiece(args[idx]))
-			sv := "\x01arg" + strconv.Itoa(idx) + "\x02"
+			// long enough for a precision (%.40s truncates) or a width (%40s pads) to show
+			sv := "\x01arg" + strconv.Itoa(idx) + strings.Repeat("~", 5000) + "\x02"
 			if sentinels[idx] == nil || sentinels[idx] == sv {
 				sentinels[idx] = sv
 				expect.WriteString(sv)
@@ -938,7 +959,7 @@ func (c *fnCtx) addSprintfSite(x *ast.CallExpr) {
 		if got := fmt.Sprintf(format, sentinels...); got != expect.String() {
 			fmtChecks.Differ++
 			st.Pieces = append(st.Pieces, Piece{T: "arg", K: KUnclass,
-				What: "package fmt prints this format differently from the analyser's decomposition (flags, width, index): " + strconv.Quote(got)})
+				What: "package fmt prints this format differently from the analyser's decomposition (flags, width, precision, index)"})
 		}
 	}
 	sites = append(sites, st)
